@@ -772,14 +772,16 @@ def instances(prop, tier):
             L += seqs([s for s in all_sequences(2)], MIXED, [1])
         else:
             k = 0
+            SQ = DROPPY + ["u32", "Big"]
             for s_ in singles:
-                L.append(seqc(MIXED[k % len(MIXED)], [0, 1, 2, None][k % 4], s_))
+                L.append(seqc(SQ[k % len(SQ)], [0, 1, 2, None][k % 4], s_))
                 k += 1
-            for s_ in CURATED:
-                L.append(seqc(MIXED[k % len(MIXED)], [1, 0, 2][k % 3], s_))
+            # the other checks run the remaining curated sequences; here a spread of 18 + the refill / clone corner cases
+            for s_ in pick(CURATED, 18):
+                L.append(seqc(SQ[k % len(SQ)], [1, 0, 2][k % 3], s_))
                 k += 1
-            L += seqs(clone_after()[::3], MIXED, [1])
-            L += seqs(REFILL2, MIXED, [2])
+            L += seqs(clone_after()[::5], SQ, [1])
+            L += seqs(REFILL2[:3], SQ, [2])
     elif prop == "C19":
         L += drain_states(DROPPY, full)
         L += B(["SEND", "SEND_TO", "SEND_OPT_TO"], ["DRAIN"], DROPPY, [0, 1])
